@@ -10,6 +10,7 @@ import (
 	"os"
 	"runtime"
 	"strings"
+	"sync/atomic"
 )
 
 type replayFile struct {
@@ -131,6 +132,11 @@ func Param(name string, def int) int {
 	return def
 }
 
+var tickCounter int64
+
+// Tick returns the next value of a global logical clock (race-free).
+func Tick() int { return int(atomic.AddInt64(&tickCounter, 1)) }
+
 func Stop()              { panic(Stopped{}) }
 func Symbolic() bool     { return false }
 func Concrete(x int) int { return x }
@@ -215,3 +221,16 @@ func Same(a, b any) bool { return false }
 
 // IsLazy reports whether a is a not yet inspected lazy value (engine only).
 func IsLazy(a any) bool { return false }
+
+// Branch-free boolean / integer combinators: under the engine they build one
+// solver term instead of forking the path at every && and ||.
+func And(a, b bool) bool { return a && b }
+func Or(a, b bool) bool  { return a || b }
+func Not(a bool) bool    { return !a }
+func EqInt(a, b int) bool { return a == b }
+func IteInt(c bool, a, b int) int {
+	if c {
+		return a
+	}
+	return b
+}
